@@ -1,0 +1,30 @@
+//go:build verif
+
+package lexer
+
+import "github.com/moorara/algo/lexer"
+
+// VerifErrorState is the value advanceDFA returns when no transition exists.
+const VerifErrorState = errorState
+
+// VerifAdvanceDFA exposes the coded transition function of the scanner to the verification harness.
+func VerifAdvanceDFA(state int, r rune) int {
+	return advanceDFA(state, r)
+}
+
+// verifInput is a stub input buffer holding one pending lexeme.
+type verifInput struct {
+	lexeme string
+}
+
+func (i *verifInput) Next() (rune, error)              { return 0, nil }
+func (i *verifInput) Retract()                         {}
+func (i *verifInput) Lexeme() (string, lexer.Position) { return i.lexeme, lexer.Position{} }
+func (i *verifInput) Skip() lexer.Position             { return lexer.Position{} }
+
+// VerifEvalDFA exposes the state evaluation function of the scanner to the verification harness.
+// The given lexeme plays the role of the pending text between lexemeBegin and forward.
+func VerifEvalDFA(state int, lexeme string) lexer.Token {
+	l := &Lexer{in: &verifInput{lexeme: lexeme}}
+	return l.evalDFA(state)
+}
